@@ -192,6 +192,8 @@ def mon_c09(ops, obs, eng):
     tick, deadline, launched, cleared_once, failed = 0, 0, False, False, False
     unsure = False        # a report arrived while a deadline was pending and no context lookup has been seen since
     fresh = False         # the next context lookup still shows the view and the definitions as they were at the last report
+    by_batch = False      # the launched flag was written by an accepted launch batch (not by a KV update)
+    r_since_lc = 0        # reports since the last context lookup (an unobserved intermediate view may have completed the launch)
     defs = {}
     bootstrapped = False
     view = None
@@ -244,15 +246,22 @@ def mon_c09(ops, obs, eng):
                         break
                 else:
                     launched = True
+                    by_batch = True
                     deadline = tick + P[2] * P[1]
                     if val(r) != len(qs):
                         out.append((oi, "first launch batch not accepted"))
                         break
+        elif op[0] == "LK" and op[1] == 2 and by_batch and not panicked(r):
+            g = r.split()
+            if len(g) < 9 or g[4] != "x74727565" or g[8] != "true":
+                out.append((oi, "after the accepted launch batch the launched flag is not stored as the finalized value 'true'"))
+                break
         elif op[0] == "R":
             if panicked(r):
                 break
             view = None
             unsure = deadline > 0
+            r_since_lc += 1
             fresh = True
         elif op[0] == "LC" and not panicked(r):
             c = ctx_struct(r)
@@ -262,6 +271,10 @@ def mon_c09(ops, obs, eng):
                 full = all(s in c["view"] and all(n["tick"] > 0 for n in c["view"][s]["reps"].values()) for s in c["shards"])
                 if full:
                     deadline, cleared_once = 0, True
+                elif r_since_lc > 1:
+                    unsure = True    # several reports, only the last view seen: an earlier one may have cleared the deadline
+            if c is not None and fresh:
+                r_since_lc = 0
         if out:
             break
     return out
@@ -365,6 +378,14 @@ def mon_view(ops, obs, eng, check=("c04", "c05", "c11")):
                                 lead = lambda x: sorted(k for k, n in x["reps"].items() if n["leader"])
                                 out.append((oi, "only entries with versions below v%d were reported for shard %d, yet its record changed: leaders %s -> %s, version %d -> %s" % (
                                     pv["cci"], s, lead(pv), lead(sv) if sv else None, pv["cci"], sv["cci"] if sv else None)))
+                    # report times: only the record of a replica that is named by an entry is touched
+                    named = set((ci["shard"], ci["replica"]) for (_, rep) in since for ci in rep["infos"])
+                    for s, sv in c["view"].items():
+                        pv = prev["view"].get(s)
+                        for rid, n in sv["reps"].items():
+                            if pv is not None and rid in pv["reps"] and (s, rid) not in named and n["tick"] not in (0, pv["reps"][rid]["tick"]):
+                                out.append((oi, "report time of member %d of shard %d moved %d -> %d although no entry since the previous lookup names that replica" % (
+                                    rid, s, pv["reps"][rid]["tick"], n["tick"])))
                 since = []
             if "c05" in check:
                 if c["tick"] != tick:
